@@ -108,6 +108,9 @@ def run(ctx):
     ctx.floor('C13.1', 12)
     slice_none(ctx)
     index_space(ctx)
+    # line numbers segyio rejects are rejected: the one number -> ordinal translation is exact (rule of C14.4)
+    from .. import sanitiser
+    sanitiser.check(ctx, 'C13.4')
     slices(ctx)
     n0 = len(ctx.findings)
     emulator(ctx)
